@@ -574,3 +574,40 @@ func ruleBranchConsultsOnly(c *Ctx, r *Report, clause, anchor string, allowedFie
 	}
 	r.add(clause, "decision-inputs", "consults-only:"+anchor, desc, pkgPrefixes, sites, viol)
 }
+
+// ruleNoNewEarlyExit: the strict form of the early-exit inventory for functions whose every
+// success exit matters: an early `return ..., nil` that is not in the reviewed table is reported
+// even when it decides on inputs the function already consults (for these functions "nothing to
+// do here" is exactly the kind of shortcut that drops what the property is about).
+func ruleNoNewEarlyExit(c *Ctx, r *Report, clause string, why string, pkgPrefix string, fns ...string) {
+	w := c.W
+	table := loadEarlyExitTable(c.VerifDir)
+	want := map[string]bool{}
+	for _, f := range fns {
+		want[f] = true
+	}
+	per := map[string][]string{}
+	viols := map[string]string{}
+	for _, s := range w.earlyExits(pkgPrefix) {
+		for _, h := range hostParts(s.Fn) {
+			if !want[h] {
+				continue
+			}
+			per[h] = append(per[h], w.pos(s.Pos.Pos()))
+			if _, ok := table[s.Key]; !ok && !strings.Contains(s.Key, ":return-nil-error[case:") {
+				viols[h] = fmt.Sprintf("%s: %s now has an early success exit under [%s] that the reviewed function did not have: %s", w.pos(s.Pos.Pos()), h, s.Cond, why)
+			}
+		}
+	}
+	for _, f := range fns {
+		fi := need(c, r, clause, f)
+		if fi == nil {
+			continue
+		}
+		sites := per[f]
+		if len(sites) == 0 {
+			sites = []string{w.pos(fi.Decl.Pos())}
+		}
+		r.add(clause, "early-exit", "strict:"+f, f+" has no early success exit beyond the reviewed ones", []string{f}, sites, viols[f])
+	}
+}
